@@ -664,6 +664,205 @@ func exprText(e ast.Expr) string {
 var sites, unresolved []site
 var rangeCount int
 
+// map-range statement -> index into sites
+var siteOfRange = map[*ast.RangeStmt]int{}
+
+type regularSite struct {
+	s      site
+	sorter string
+}
+
+var regular []regularSite
+
+type keyInit struct {
+	file, fn, field, expr string
+	ok                    bool
+}
+type rawUse struct{ file, fn, expr string }
+type sortedAppend struct {
+	file, fn, sorter, expr string
+	raw                    bool
+}
+
+var keyInits []keyInit
+var lessRawUses []rawUse
+var sortedAppends []sortedAppend
+
+// the element types whose key field must hold a STABLE source index
+var stableKeyFields = map[string]string{"stableRef": "StableSourceIndex", "StableSymbolCount": "StableSourceIndex", "chunkOrder": "tieBreaker"}
+
+func typeBaseName(e ast.Expr) string {
+	switch e := e.(type) {
+	case *ast.Ident:
+		return e.Name
+	case *ast.SelectorExpr:
+		return e.Sel.Name
+	case *ast.StarExpr:
+		return typeBaseName(e.X)
+	}
+	return ""
+}
+
+func isStableTableIndex(e ast.Expr) bool {
+	if call, ok := e.(*ast.CallExpr); ok && len(call.Args) == 1 { // uint32(x) / int(x)
+		if id, ok := call.Fun.(*ast.Ident); ok && (id.Name == "uint32" || id.Name == "int") {
+			return isStableTableIndex(call.Args[0])
+		}
+	}
+	ix, ok := e.(*ast.IndexExpr)
+	if !ok {
+		return false
+	}
+	t := exprText(ix.X)
+	return strings.HasSuffix(t, "StableSourceIndices") || strings.HasSuffix(t, "stableSourceIndices")
+}
+
+func mentionsRawIndex(e ast.Expr) bool {
+	raw := false
+	ast.Inspect(e, func(n ast.Node) bool {
+		if n == nil {
+			return true
+		}
+		if ex, ok := n.(ast.Expr); ok && isStableTableIndex(ex) {
+			return false // an index INTO the stable table is the legal use
+		}
+		switch n := n.(type) {
+		case *ast.SelectorExpr:
+			if n.Sel.Name == "SourceIndex" || n.Sel.Name == "sourceIndex" {
+				raw = true
+			}
+		case *ast.Ident:
+			if n.Name == "sourceIndex" || n.Name == "SourceIndex" {
+				raw = true
+			}
+		}
+		return true
+	})
+	return raw
+}
+
+func sortCallOn(stmt ast.Stmt) (string, string) {
+	es, ok := stmt.(*ast.ExprStmt)
+	if !ok {
+		return "", ""
+	}
+	call, ok := es.X.(*ast.CallExpr)
+	if !ok || len(call.Args) != 1 {
+		return "", ""
+	}
+	se, ok := call.Fun.(*ast.SelectorExpr)
+	if !ok {
+		return "", ""
+	}
+	if id, ok := se.X.(*ast.Ident); !ok || id.Name != "sort" {
+		return "", ""
+	}
+	switch se.Sel.Name {
+	case "Strings", "Ints", "Sort", "Stable":
+		return "sort." + se.Sel.Name, exprText(call.Args[0])
+	}
+	return "", ""
+}
+
+// second pass over a function: sort keys and regular collect-then-sort shapes
+func scanSortKeys(rel string, name string, fd *ast.FuncDecl) {
+	isLess := fd.Recv != nil && fd.Name.Name == "Less"
+	appends := map[string][]ast.Expr{}
+	var sorts [][2]string
+	ast.Inspect(fd.Body, func(n ast.Node) bool {
+		switch n := n.(type) {
+		case *ast.CompositeLit:
+			if field, ok := stableKeyFields[typeBaseName(n.Type)]; ok && n.Type != nil {
+				found := false
+				for _, el := range n.Elts {
+					if kv, ok := el.(*ast.KeyValueExpr); ok {
+						if id, ok := kv.Key.(*ast.Ident); ok && id.Name == field {
+							found = true
+							keyInits = append(keyInits, keyInit{rel, name, typeBaseName(n.Type) + "." + field, exprText(kv.Value), isStableTableIndex(kv.Value)})
+						}
+					}
+				}
+				if !found && len(n.Elts) > 0 {
+					keyInits = append(keyInits, keyInit{rel, name, typeBaseName(n.Type) + "." + field, "<not initialised by name: " + exprText(n) + ">", false})
+				}
+			}
+		case *ast.SelectorExpr:
+			if isLess && (n.Sel.Name == "SourceIndex" || n.Sel.Name == "sourceIndex") {
+				lessRawUses = append(lessRawUses, rawUse{rel, name, exprText(n)})
+			}
+		case *ast.CallExpr:
+			if se, ok := n.Fun.(*ast.SelectorExpr); ok {
+				if id, ok := se.X.(*ast.Ident); ok && id.Name == "sort" && (se.Sel.Name == "Slice" || se.Sel.Name == "SliceStable") && len(n.Args) == 2 {
+					ast.Inspect(n.Args[1], func(m ast.Node) bool {
+						if sel, ok := m.(*ast.SelectorExpr); ok && (sel.Sel.Name == "SourceIndex" || sel.Sel.Name == "sourceIndex") {
+							lessRawUses = append(lessRawUses, rawUse{rel, name + " (sort." + se.Sel.Name + " closure)", exprText(sel)})
+						}
+						return true
+					})
+				}
+			}
+		case *ast.AssignStmt:
+			if len(n.Lhs) == 1 && len(n.Rhs) == 1 {
+				if call, ok := n.Rhs[0].(*ast.CallExpr); ok {
+					if id, ok := call.Fun.(*ast.Ident); ok && id.Name == "append" && len(call.Args) >= 2 && exprText(call.Args[0]) == exprText(n.Lhs[0]) {
+						appends[exprText(n.Lhs[0])] = append(appends[exprText(n.Lhs[0])], call.Args[1:]...)
+					}
+				}
+			}
+		case *ast.ExprStmt:
+			if sorter, arg := sortCallOn(n); sorter == "sort.Ints" || sorter == "sort.Strings" {
+				sorts = append(sorts, [2]string{sorter, arg})
+			}
+		case *ast.BlockStmt:
+			for i, st := range n.List {
+				rs, ok := st.(*ast.RangeStmt)
+				if !ok {
+					continue
+				}
+				idx, isSite := siteOfRange[rs]
+				if !isSite || i+1 >= len(n.List) || len(rs.Body.List) != 1 {
+					continue
+				}
+				as, ok := rs.Body.List[0].(*ast.AssignStmt)
+				if !ok || len(as.Lhs) != 1 || len(as.Rhs) != 1 {
+					continue
+				}
+				call, ok := as.Rhs[0].(*ast.CallExpr)
+				if !ok || len(call.Args) != 2 {
+					continue
+				}
+				if id, ok := call.Fun.(*ast.Ident); !ok || id.Name != "append" || exprText(call.Args[0]) != exprText(as.Lhs[0]) {
+					continue
+				}
+				if sorter, arg := sortCallOn(n.List[i+1]); sorter != "" && arg == exprText(as.Lhs[0]) {
+					if sorter == "sort.Sort" || sorter == "sort.Stable" {
+						// the comparator is the Less of the slice type: xs := make(T, ...)
+						elem := "?"
+						ast.Inspect(fd.Body, func(m ast.Node) bool {
+							if d, ok := m.(*ast.AssignStmt); ok && d.Tok == token.DEFINE && len(d.Lhs) == 1 && len(d.Rhs) == 1 && exprText(d.Lhs[0]) == arg {
+								if mk, ok := d.Rhs[0].(*ast.CallExpr); ok && len(mk.Args) >= 1 {
+									if id, ok := mk.Fun.(*ast.Ident); ok && id.Name == "make" {
+										elem = typeBaseName(mk.Args[0])
+									}
+								}
+							}
+							return true
+						})
+						sorter += ":" + elem
+					}
+					regular = append(regular, regularSite{sites[idx], sorter})
+				}
+			}
+		}
+		return true
+	})
+	for _, sc := range sorts {
+		for _, e := range appends[sc[1]] {
+			sortedAppends = append(sortedAppends, sortedAppend{rel, name, sc[0] + "(" + sc[1] + ")", exprText(e), mentionsRawIndex(e)})
+		}
+	}
+}
+
 func scanFile(p *pkgInfo, rel string, f *ast.File) {
 	for _, d := range f.Decls {
 		fd, ok := d.(*ast.FuncDecl)
@@ -776,6 +975,7 @@ func scanFile(p *pkgInfo, rel string, f *ast.File) {
 					s := site{file: rel, fn: name, expr: txt, ord: seen[txt], line: fset.Position(n.Pos()).Line, pos: n.Pos()}
 					seen[txt]++
 					if class == "map" {
+						siteOfRange[n] = len(sites)
 						sites = append(sites, s)
 					} else {
 						unresolved = append(unresolved, s)
@@ -785,6 +985,7 @@ func scanFile(p *pkgInfo, rel string, f *ast.File) {
 			return true
 		}
 		ast.Inspect(fd.Body, walk)
+		scanSortKeys(rel, name, fd)
 		// a sort call follows the loop before the next map-range loop of the function starts
 		for i := firstSite; i < len(sites); i++ {
 			next := token.Pos(1 << 60)
@@ -881,7 +1082,61 @@ func main() {
 	fmt.Fprintf(&sb, "Definition sites_with_sort_after : list (string * string * string * nat) := %s.\n\n", emit(withSort))
 	fmt.Fprintf(&sb, "Definition unresolved_range_sites : list (string * string * string * nat) := %s.\n\n", emit(unresolved))
 	fmt.Fprintf(&sb, "Definition range_stmt_count : nat := %d%%nat.\n", rangeCount)
+	sort.Slice(regular, func(i, j int) bool { return less([]site{regular[i].s, regular[j].s})(0, 1) })
+	var regItems []string
+	for _, rg := range regular {
+		regItems = append(regItems, fmt.Sprintf("  ((%s, %s, %s, %d%%nat), %s)", coqStr(rg.s.file), coqStr(rg.s.fn), coqStr(rg.s.expr), rg.s.ord, coqStr(rg.sorter)))
+	}
+	sb.WriteString("\n(* map-range sites of the regular shape  for k := range M { xs = append(xs, E) } ; sort.X(xs)  with the sorter *)\n")
+	fmt.Fprintf(&sb, "Definition regular_collect_sort_sites : list ((string * string * string * nat) * string) := [\n%s\n].\n", strings.Join(regItems, ";\n"))
 	if err := os.WriteFile(filepath.Join(os.Args[2], "MapSitesGen.v"), []byte(sb.String()), 0o644); err != nil {
+		die("%v", err)
+	}
+
+	// ---- SortKeysGen.v: where sort keys come from
+	if len(keyInits) == 0 {
+		die("no composite literal of stableRef/StableSymbolCount/chunkOrder found (unexpected shape)")
+	}
+	sort.Slice(keyInits, func(i, j int) bool {
+		a, b := keyInits[i], keyInits[j]
+		return a.file+"|"+a.fn+"|"+a.field+"|"+a.expr < b.file+"|"+b.fn+"|"+b.field+"|"+b.expr
+	})
+	sort.Slice(lessRawUses, func(i, j int) bool {
+		a, b := lessRawUses[i], lessRawUses[j]
+		return a.file+"|"+a.fn+"|"+a.expr < b.file+"|"+b.fn+"|"+b.expr
+	})
+	sort.Slice(sortedAppends, func(i, j int) bool {
+		a, b := sortedAppends[i], sortedAppends[j]
+		return a.file+"|"+a.fn+"|"+a.sorter+"|"+a.expr < b.file+"|"+b.fn+"|"+b.sorter+"|"+b.expr
+	})
+	cb := func(b bool) string {
+		if b {
+			return "true"
+		}
+		return "false"
+	}
+	var sk strings.Builder
+	sk.WriteString("(* GENERATED by gen/cmd/t4mapsites from the Go sources: do not edit.\n   Where the keys of order-sensitive sorts come from. *)\n")
+	sk.WriteString("From Coq Require Import String List Bool.\nImport ListNotations.\nOpen Scope string_scope.\n\n")
+	var it []string
+	for _, k := range keyInits {
+		it = append(it, fmt.Sprintf("  (%s, %s, %s, %s, %s)", coqStr(k.file), coqStr(k.fn), coqStr(k.field), coqStr(k.expr), cb(k.ok)))
+	}
+	sk.WriteString("(* every composite literal of stableRef / StableSymbolCount / chunkOrder: (file, function, field, initialiser, initialiser is an index into StableSourceIndices) *)\n")
+	fmt.Fprintf(&sk, "Definition stable_key_inits : list (string * string * string * string * bool) := [\n%s\n].\n\n", strings.Join(it, ";\n"))
+	it = nil
+	for _, k := range lessRawUses {
+		it = append(it, fmt.Sprintf("  (%s, %s, %s)", coqStr(k.file), coqStr(k.fn), coqStr(k.expr)))
+	}
+	sk.WriteString("(* every use of a raw .SourceIndex / .sourceIndex inside a Less method or a sort.Slice closure *)\n")
+	fmt.Fprintf(&sk, "Definition less_raw_index_uses : list (string * string * string) := [\n%s\n].\n\n", strings.Join(it, ";\n"))
+	it = nil
+	for _, k := range sortedAppends {
+		it = append(it, fmt.Sprintf("  (%s, %s, %s, %s, %s)", coqStr(k.file), coqStr(k.fn), coqStr(k.sorter), coqStr(k.expr), cb(k.raw)))
+	}
+	sk.WriteString("(* what is appended to a slice that the same function sorts with sort.Ints/sort.Strings: (file, function, sort call, appended expression, mentions a raw source index) *)\n")
+	fmt.Fprintf(&sk, "Definition sorted_append_exprs : list (string * string * string * string * bool) := [\n%s\n].\n", strings.Join(it, ";\n"))
+	if err := os.WriteFile(filepath.Join(os.Args[2], "SortKeysGen.v"), []byte(sk.String()), 0o644); err != nil {
 		die("%v", err)
 	}
 	if os.Getenv("T4_VERBOSE") != "" {
